@@ -172,7 +172,8 @@ CheckGeo(m, e) ==
       plain == ~c.att \/ within                      \* no attenuation applies
       lo == ONE - c.st * 1000
       b == m.base
-  IN IF e.a # "o" THEN ""
+  IN IF e.a = "x" THEN (IF e.p THEN "no_panic" ELSE IF ~e.fin THEN "output_finite" ELSE "")    \* arbitrary f32 coordinates
+     ELSE IF e.a # "o" THEN ""
      ELSE IF e.p THEN "no_panic"
      ELSE IF ~IsRot(e.R) THEN "harness_bad_orientation"
      ELSE IF ~e.fin THEN "output_finite"
